@@ -1,5 +1,6 @@
 """C05 — optimizer passes preserve the meaning of every grammar."""
 from props.common import *
+import binascii
 
 MODULE = "PestModel.Thm.C05"
 DRV, MODE = "drv_opt", "grammar"
@@ -125,6 +126,51 @@ def run(ctx):
                 op, imp, mod = min(syntactic, key=lambda t: (len(t[0]), t[0]))
                 ctx.violation({"kind": "correspondence `O` (real optimizer pass output vs PestModel.G pass output, as trees) no longer checks; no meaning-changing input was found for the passes as modelled",
                                "features": fs, "case": op, "impl": imp[:2000], "model": mod[:2000], "mismatches_in_run": len(syntactic)}, no_input=True)
+    # the passes' run-time contracts: the REAL pipeline (optimize, then Vm::parse, which executes Skip / RestoreOnErr / the
+    # rewritten expressions with the real primitives) against the reference denotation of the grammar AS WRITTEN, on the
+    # grammars built around the idioms the passes rewrite (C01's driver, profile C05)
+    vm_stats = {}
+    ok, out, bindir, _ = cargo_build("default", ["drv_sem"])
+    if not ok:
+        ctx.violation({"obligation": "harness does not build against /repo (drv_sem)", "log": out[-2000:]}, no_input=True)
+    else:
+        os.environ["DRV_SEM_PROFILE"] = "C05"
+        try:
+            c = correspond("vm-idioms", os.path.join(bindir, "drv_sem"), ["gen", ctx.tier, str(ctx.seed)], MODE, os.path.join(ctx.rundir, "vm-idioms"))
+        finally:
+            os.environ.pop("DRV_SEM_PROFILE", None)
+        allcs.append(c)
+        if c.error:
+            ctx.violation({"correspondence": c.name, "error": c.error}, no_input=True)
+        else:
+            vm_stats = {k: v for k, v in c.stats.items() if k != "samples"}
+            oracle = {i: v for (i, op, imp, v) in c.oracle_fail}
+            bad = []
+            for (i, op, imp, mod) in c.mismatch:
+                a, b = imp.split(" | "), mod.split(" | ")
+                nolist = {}
+                for item in oracle.get(i, "").split()[1:]:
+                    k, _, h = item.partition("=")
+                    try:
+                        nolist[int(k)] = binascii.unhexlify(h).decode()
+                    except Exception:
+                        pass
+                if len(a) != len(b):
+                    bad.append((op, imp[:300], mod[:300])); continue
+                head, _, tail = op.rpartition(")")
+                parts = tail.split()
+                for j, (x, y) in enumerate(zip(a, b)):
+                    if x == y or y in ("fuel", "bad-op"):
+                        continue
+                    if lister_known and nolist.get(j) == y:
+                        ctx.known_finding(LISTER_ID, "optimizer `list` pass rewrites (a ~ b)* ~ a into a ~ (b ~ a)* which is not meaning-preserving (reference denotation differs on some input; the pipeline without `list` is meaning-preserving on the same grammar)")
+                    else:
+                        bad.append((f"{head}) {parts[0]} {parts[1 + j]}", x, y))
+            if bad:
+                case, x, y = min(bad, key=lambda t: (len(t[0]), t[0]))
+                ctx.violation({"kind": "the optimized rules, run by the real VM, do not accept / consume / emit what the rules as written mean (reference denotation): a pass's output and the primitive that executes it disagree",
+                               "leg": "vm-idioms", "features": "default", "case": case, "impl": x, "reference": y, "failing_inputs_in_run": len(bad)})
+                found_input = True
     if problems and not found_input:
         ctx.violation({"obligation": MODULE, "problems": problems}, no_input=True)
     cov = dict(frag)
@@ -136,7 +182,7 @@ def run(ctx):
         "rule": "syntactic tie: for seeded random rule sets (guarded grammars plus shaped/unguarded rules that trigger every rewrite: left-nested ~ and |, the skip idiom with inlined rules, bounded repetitions incl. zero counts, string concatenation in atomic rules, the three factorings, the lister pattern, stack operations under ?, |, * and through rule references incl. cycles) each of rotate, skip, unroll, concatenate, factor, list, the whole optimize and optimize-without-list is run for real (hook H2) and its output compared AS A TREE with the Lean pass; semantic search: for guarded grammars the reference denotation of the grammar and of its image under each pass are compared on ALL inputs up to 3 (quick) / 5 (thorough) characters; non-trivial = distinct (pass, rule set) where the pass changed something",
         "traces_validated_against_impl": sum(c.n for c in allcs),
         "samples": [x[:300] for x in g.get("samples", [])][:3],
-        "distribution": {k: {kk: vv for kk, vv in v.items() if kk != "samples"} for k, v in stats.items()},
+        "distribution": dict({k: {kk: vv for kk, vv in v.items() if kk != "samples"} for k, v in stats.items()}, real_vm_on_idiom_grammars=vm_stats),
         "mismatches": sum(len(c.mismatch) for c in allcs),
     })
     ctx.evidence(level_of(ctx.prop), cov, [
@@ -147,4 +193,6 @@ def run(ctx):
 
 def replay(ctx, path):
     r = json.load(open(path))
+    if r.get("leg") == "vm-idioms":
+        return replay_generic(ctx, path, "drv_sem", MODE, featureset="default")
     return replay_generic(ctx, path, DRV, MODE, featureset=("extras" if r.get("features") == "extras" else "default"))
